@@ -175,8 +175,11 @@ PROPS = {
         "level": "exploration",
         "rule": (
             "seeded histories: a target model M (long-lived copy built before, and/or fresh copy built after) and a prefix of 1-6 adversary models "
-            "that reuse M's variable/parameter names with other values, bounds, domains or structure (plus bare Parameter/Variable expressions as "
-            "LRU keys), each compiled, called and solved; drop_model+gc (id reuse) and flood(k) past the (knob-shrunk or default) LRU capacities. "
+            "that reuse M's variable/parameter names with other values, bounds, domains, operators (same tree shape) or structure, replaying M's own "
+            "script (same handles / orders / methods = same cache keys), the same script with handle orders permuted inside, or their own; bare "
+            "Parameter / Variable expressions and products of two variables as LRU keys; compile requests that fail (missing variable, MatrixSum); "
+            "solver arguments (maxiter, tol); drop_model+gc and a churn scenario (12-30 tiny models of one degree built, solved, dropped, then models "
+            "of another degree) for id() reuse; flood(k) past the (knob-shrunk or default) LRU capacities. "
             "Every observation on every model is compared tightly with the same observation on that model built alone in a pristine forked process. "
             "Distinct/non-trivial: (op kind, solver method entered, outcome, cache-fill state)."
         ),
@@ -192,8 +195,12 @@ PROPS = {
         ),
         "level": "exploration",
         "rule": (
-            "seeded edit/solve/read histories (3-22 ops over minimize, maximize, subject_to, subject_to([..]), lb/ub edits, "
-            "solve with 7 methods, reads) on one Problem with a 6-objective / 8-constraint pool; every solve/read is compared "
+            "seeded edit/solve/read histories (3-22 ops over minimize, maximize, subject_to, subject_to([..]), a subject_to list that fails half-way, "
+            "lb/ub edits, solve with 21 method choices incl. warm starts at the previous solution and solves whose cache building is hit by a "
+            "compile-time fault, reads) on one Problem -- or two Problems over the same variable objects -- with a 6-objective / 8-constraint pool "
+            "(also 405-term deep objectives and an uncompilable constraint); plus scenario kinds: LP objective rotation (variables leave and enter, "
+            "columns move), re-declaration of the variables under the same names with a new objective in the same Problem (8-14 rounds on deep "
+            "objectives so that addresses are recycled); every solve/read is compared "
             "tightly (status, values, objective, message, iterations, data handed to the solver at the seam, warnings) with the "
             "same call on a from-scratch build of the current logical state in a pristine forked process.  A case is counted "
             "non-trivial/distinct by (op kind, solver method entered, outcome status or exception, cache-fill state of the Problem "
